@@ -159,6 +159,22 @@ end
 
 /-! ### locations: selections without object / list literals are the same `LSel` wherever they stand -/
 
+/-- does the value embed source locations?  (`{}` and `[]` do not) -/
+def isComposite : Value → Bool
+  | .object (_ :: _) | .list (_ :: _) => true
+  | _ => false
+
+theorem ofValue_noComposite {v : Value} (h : isComposite v = false) (site site' : List Nat) :
+    ofValue site v = ofValue site' v := by
+  cases v with
+  | object fs => cases fs with
+    | nil => simp only [ofValue]
+    | cons f fs => simp [isComposite] at h
+  | list vs => cases vs with
+    | nil => simp only [ofValue]
+    | cons f fs => simp [isComposite] at h
+  | _ => simp only [ofValue]
+
 def noCompositeArgs (args : List (String × Value)) : Bool := args.all fun a => !isComposite a.2
 
 mutual
@@ -186,9 +202,9 @@ theorem locArgs_noComposite {args : List (String × Value)} (h : noCompositeArgs
   | cons a rest ih =>
     obtain ⟨n, v⟩ := a
     simp only [noCompositeArgs, List.all_cons, Bool.and_eq_true, Bool.not_eq_true'] at h
-    simp only [locArgs, h.1]
-    rw [ih (by simpa [noCompositeArgs] using h.2) (i + 1) (j + 1)]
-    rfl
+    simp only [locArgs]
+    rw [ih (by simpa [noCompositeArgs] using h.2) (i + 1) (j + 1),
+      ofValue_noComposite h.1 (loc ++ [i]) (loc' ++ [j])]
 
 theorem locHead_noComposite {h : SelHead} (hn : noCompositeArgs h.args = true) (loc loc' : List Nat) :
     locHead loc h = locHead loc' h := by
@@ -211,7 +227,6 @@ theorem locSels_noComposite_aux : (l : List Selection) → noCompositeSels l = t
       locSels_noComposite_aux rest hn.2 loc loc' (i + 1) (j + 1)]
 end
 
-
 theorem locSel_noComposite {s : Selection} : noCompositeSel s = true → ∀ loc loc', locSel loc s = locSel loc' s :=
   locSel_noComposite_aux s
 
@@ -221,28 +236,28 @@ theorem locSels_noComposite {l : List Selection} : noCompositeSels l = true →
 
 /-! ### extraction into a client field -/
 
-/-- no default value of a variable of a client field / pointer is itself a variable (in Rust a
-default is a `ConstantValue`) -/
+/-- no default value of a variable of a client field / pointer mentions a variable, at any depth
+(in Rust a default is a `ConstantValue`) -/
 def DefaultsNotVar (p : Project) : Prop :=
-  ∀ nd ∈ p.decls, ∀ vd ∈ nd.2.vars, ∀ u, vd.default ≠ some (.var u)
+  ∀ nd ∈ p.decls, ∀ vd ∈ nd.2.vars, ∀ dv, vd.default = some dv → dv.variables = []
 
 /-- `DefaultsNotVar`, executable -/
 def defaultsNotVarB (p : Project) : Bool :=
   p.decls.all fun nd => nd.2.vars.all fun vd =>
     match vd.default with
-    | some (.var _) => false
-    | _ => true
+    | some dv => dv.variables.isEmpty
+    | none => true
 
 theorem defaultsNotVarB_iff (p : Project) : defaultsNotVarB p = true ↔ DefaultsNotVar p := by
   simp only [defaultsNotVarB, DefaultsNotVar, List.all_eq_true]
   constructor
-  · intro h nd hnd vd hvd u hu
+  · intro h nd hnd vd hvd dv hdv
     have := h nd hnd vd hvd
-    rw [hu] at this
-    cases this
+    rw [hdv] at this
+    exact List.isEmpty_iff.1 this
   · intro h nd hnd vd hvd
     split
-    · next u hu => exact absurd hu (h nd hnd vd hvd u)
+    · next dv hdv => exact List.isEmpty_iff.2 (h nd hnd vd hvd dv hdv)
     · rfl
 
 theorem findDecl_go_mem {ty name : String} {i : Nat} {d : Decl} :
@@ -260,17 +275,115 @@ theorem findDecl_mem {p : Project} {ty name : String} {i : Nat} {d : Decl}
     (h : findDecl p ty name = some (i, d)) : ∃ f, (f, d) ∈ p.decls :=
   findDecl_go_mem p.decls 0 h
 
+/-! #### located values: substitution -/
+
+namespace LV
+
+mutual
+/-- substituting twice is substituting once with the substituted values -/
+theorem subst_comp (f g : String → LV) : (x : LV) → (x.subst f).subst g = x.subst (fun v => (f v).subst g)
+  | .var n => by simp only [subst]
+  | .object s fs => by simp only [subst, substFields_comp f g fs]
+  | .list s vs => by simp only [subst, substList_comp f g vs]
+  | .int _ | .float _ | .bool _ | .null | .enum _ | .str _ => by simp only [subst]
+theorem substFields_comp (f g : String → LV) : (fs : List (String × LV)) →
+    substFields g (substFields f fs) = substFields (fun v => (f v).subst g) fs
+  | [] => by simp only [substFields]
+  | (k, v) :: rest => by simp only [substFields, subst_comp f g v, substFields_comp f g rest]
+theorem substList_comp (f g : String → LV) : (vs : List LV) →
+    substList g (substList f vs) = substList (fun v => (f v).subst g) vs
+  | [] => by simp only [substList]
+  | v :: rest => by simp only [substList, subst_comp f g v, substList_comp f g rest]
+end
+
+mutual
+/-- a substitution matters only on the variables of the value -/
+theorem subst_congr {f g : String → LV} : (x : LV) → (∀ v ∈ x.variables, f v = g v) → x.subst f = x.subst g
+  | .var n => fun h => by simpa only [subst] using h n (by simp [variables])
+  | .object s fs => fun h => by
+    simp only [subst, substFields_congr fs (by simpa only [variables] using h)]
+  | .list s vs => fun h => by
+    simp only [subst, substList_congr vs (by simpa only [variables] using h)]
+  | .int _ | .float _ | .bool _ | .null | .enum _ | .str _ => fun _ => by simp only [subst]
+theorem substFields_congr {f g : String → LV} : (fs : List (String × LV)) →
+    (∀ v ∈ variablesFields fs, f v = g v) → substFields f fs = substFields g fs
+  | [] => fun _ => by simp only [substFields]
+  | (k, x) :: rest => fun h => by
+    simp only [variablesFields, List.mem_append] at h
+    simp only [substFields, subst_congr x (fun v hv => h v (Or.inl hv)),
+      substFields_congr rest (fun v hv => h v (Or.inr hv))]
+theorem substList_congr {f g : String → LV} : (vs : List LV) →
+    (∀ v ∈ variablesList vs, f v = g v) → substList f vs = substList g vs
+  | [] => fun _ => by simp only [substList]
+  | x :: rest => fun h => by
+    simp only [variablesList, List.mem_append] at h
+    simp only [substList, subst_congr x (fun v hv => h v (Or.inl hv)),
+      substList_congr rest (fun v hv => h v (Or.inr hv))]
+end
+
+mutual
+theorem subst_var : (x : LV) → x.subst LV.var = x
+  | .var n => by simp only [subst]
+  | .object s fs => by simp only [subst, substFields_var fs]
+  | .list s vs => by simp only [subst, substList_var vs]
+  | .int _ | .float _ | .bool _ | .null | .enum _ | .str _ => by simp only [subst]
+theorem substFields_var : (fs : List (String × LV)) → substFields LV.var fs = fs
+  | [] => by simp only [substFields]
+  | (k, v) :: rest => by simp only [substFields, subst_var v, substFields_var rest]
+theorem substList_var : (vs : List LV) → substList LV.var vs = vs
+  | [] => by simp only [substList]
+  | v :: rest => by simp only [substList, subst_var v, substList_var rest]
+end
+
+/-- a value without variables is not changed -/
+theorem subst_closed {x : LV} (h : x.variables = []) (f : String → LV) : x.subst f = x := by
+  rw [subst_congr (g := LV.var) x (fun v hv => by rw [h] at hv; cases hv), subst_var]
+
+end LV
+
+mutual
+theorem ofValue_variables (site : List Nat) : (v : Value) → (ofValue site v).variables = v.variables
+  | .var s => by simp only [ofValue, LV.variables, Value.variables]
+  | .object [] => by simp only [ofValue, LV.variables, Value.variables, LV.variablesFields, Value.variablesFields]
+  | .object (f :: fs) => by
+    simp only [ofValue, LV.variables, Value.variables, ofFields_variables site (f :: fs)]
+  | .list [] => by simp only [ofValue, LV.variables, Value.variables, LV.variablesList, Value.variablesList]
+  | .list (v :: vs) => by
+    simp only [ofValue, LV.variables, Value.variables, ofValues_variables site (v :: vs)]
+  | .int _ | .float _ | .bool _ | .null | .enum _ | .str _ => by
+    simp only [ofValue, LV.variables, Value.variables]
+theorem ofFields_variables (site : List Nat) : (fs : List (String × Value)) →
+    LV.variablesFields (ofFields site fs) = Value.variablesFields fs
+  | [] => by simp only [ofFields, LV.variablesFields, Value.variablesFields]
+  | (k, v) :: rest => by
+    simp only [ofFields, LV.variablesFields, Value.variablesFields, ofValue_variables site v,
+      ofFields_variables site rest]
+theorem ofValues_variables (site : List Nat) : (vs : List Value) →
+    LV.variablesList (ofValues site vs) = Value.variablesList vs
+  | [] => by simp only [ofValues, LV.variablesList, Value.variablesList]
+  | v :: rest => by
+    simp only [ofValues, LV.variablesList, Value.variablesList, ofValue_variables site v,
+      ofValues_variables site rest]
+end
+
 /-! #### contexts -/
 
 theorem ctxGet_nil (v : String) : ctxGet [] v = none := rfl
 
-theorem ctxGet_cons (n : String) (x : Value × List Nat) (t : VarCtx) (v : String) :
+theorem ctxGet_cons (n : String) (x : LV) (t : VarCtx) (v : String) :
     ctxGet ((n, x) :: t) v = if n == v then some x else ctxGet t v := by
   simp only [ctxGet, List.find?_cons]
   cases n == v <;> rfl
 
+theorem ctxVal_nil (v : String) : ctxVal [] v = .null := rfl
+
+theorem ctxVal_cons (n : String) (x : LV) (t : VarCtx) (v : String) :
+    ctxVal ((n, x) :: t) v = if n == v then x else ctxVal t v := by
+  simp only [ctxVal, ctxGet_cons]
+  cases n == v <;> rfl
+
 theorem ctxGet_initialCtx {vars : List VarDef} {v : String} (hv : v ∈ vars.map (·.name)) :
-    ctxGet (initialCtx vars) v = some (.var v, []) := by
+    ctxGet (initialCtx vars) v = some (.var v) := by
   induction vars with
   | nil => cases hv
   | cons d rest ih =>
@@ -284,40 +397,28 @@ theorem ctxGet_initialCtx {vars : List VarDef} {v : String} (hv : v ∈ vars.map
       · exact absurd hv.symm hd
       · exact ih hv
 
-theorem substArg_var {c : VarCtx} {a : LArg} {w : String} (h : a.value = .var w) :
-    substArg c a = match ctxGet c w with
-      | some (val, site) => ⟨a.name, val, site⟩
-      | none => ⟨a.name, .null, []⟩ := by
-  simp only [substArg, h]
-  cases ctxGet c w with
-  | none => rfl
-  | some x => rfl
-
-theorem substArg_nonvar {c : VarCtx} {a : LArg} (h : ∀ w, a.value ≠ .var w) : substArg c a = a := by
-  unfold substArg
-  split
-  · next v hv => exact absurd hv (h v)
-  · rfl
-
 /-- the three contexts of an extraction: `c0` the extracted field's own initial context, `c` the
 context where it is selected, `cc` the child context made there; `V` the variables it declares -/
 structure Link (V : List String) (c0 cc c : VarCtx) : Prop where
-  init : ∀ v ∈ V, ctxGet c0 v = some (.var v, [])
+  init : ∀ v ∈ V, ctxGet c0 v = some (.var v)
   same : ∀ v ∈ V, ctxGet cc v = ctxGet c v
   bound : ∀ v ∈ V, (ctxGet c v).isSome
 
 section
 variable {V : List String} {c0 cc c : VarCtx}
 
+/-- the leaf lemma, on values -/
+theorem Link.subst_comp (hl : Link V c0 cc c) {x : LV} (hx : ∀ v ∈ x.variables, v ∈ V) :
+    (x.subst (ctxVal c0)).subst (ctxVal cc) = x.subst (ctxVal c) := by
+  rw [LV.subst_comp]
+  apply LV.subst_congr
+  intro v hv
+  have hvV := hx v hv
+  simp only [ctxVal, hl.init v hvV, Option.getD_some, LV.subst, hl.same v hvV]
+
 theorem Link.substArg_comp (hl : Link V c0 cc c) {a : LArg} (ha : ∀ v ∈ a.value.variables, v ∈ V) :
     substArg cc (substArg c0 a) = substArg c a := by
-  by_cases hv : ∃ w, a.value = .var w
-  · obtain ⟨w, hw⟩ := hv
-    have hwV : w ∈ V := ha w (by simp [hw, Value.variables])
-    rw [substArg_var (c := c0) hw, hl.init w hwV]
-    rw [substArg_var (c := cc) (w := w) rfl, substArg_var (c := c) hw, hl.same w hwV]
-  · have hn : ∀ w, a.value ≠ .var w := fun w hw => hv ⟨w, hw⟩
-    rw [substArg_nonvar hn, substArg_nonvar hn, substArg_nonvar hn]
+  simp only [substArg, hl.subst_comp ha]
 
 theorem Link.substArgs_comp (hl : Link V c0 cc c) {args : List LArg}
     (ha : ∀ v ∈ args.flatMap (·.value.variables), v ∈ V) :
@@ -327,18 +428,15 @@ theorem Link.substArgs_comp (hl : Link V c0 cc c) {args : List LArg}
   intro a hmem
   exact hl.substArg_comp (fun v hv => ha v (List.mem_flatMap.2 ⟨a, hmem, hv⟩))
 
-
 /-- the value `childCtx` gives to one declared variable -/
-def hereOf (c : VarCtx) (args : List LArg) (declIdx i : Nat) (d : VarDef) : Option (Value × List Nat) :=
+def hereOf (c : VarCtx) (args : List LArg) (declIdx i : Nat) (d : VarDef) : Option LV :=
   match args.find? (·.name == d.name) with
   | some a =>
-    match firstVariable a.value with
-    | none => some (a.value, a.site)
-    | some v => ctxGet c v
+    if a.value.variables.all (fun v => (ctxGet c v).isSome) then some (a.value.subst (ctxVal c)) else none
   | none =>
     match d.default with
-    | some dv => some (dv, if isComposite dv then [1, declIdx, i] else [])
-    | none => some (.null, [])
+    | some dv => some (ofValue [1, declIdx, i] dv)
+    | none => some .null
 
 theorem childCtx_nil (c : VarCtx) (args : List LArg) (k i : Nat) : childCtx c args k i [] = some [] := rfl
 
@@ -348,102 +446,71 @@ theorem childCtx_cons (c : VarCtx) (args : List LArg) (k i : Nat) (d : VarDef) (
       | some x, some tail => some ((d.name, x) :: tail)
       | _, _ => none := rfl
 
-theorem firstVariable_mem {v : Value} {w : String} (h : firstVariable v = some w) : w ∈ v.variables := by
-  unfold firstVariable at h
-  exact List.mem_of_head? h
-
-theorem firstVariable_none_nonvar {v : Value} (h : firstVariable v = none) : ∀ w, v ≠ .var w := by
-  intro w hw
-  subst hw
-  simp [firstVariable, Value.variables] at h
-
-/-- how the values given to one variable under `c0` and under `c` are related -/
-def HeadRel (cc : VarCtx) (x1 x2 : Value × List Nat) : Prop :=
-  (x1 = x2 ∧ ∀ u, x1.1 ≠ .var u) ∨ (∃ v, x1 = (.var v, []) ∧ ctxGet cc v = some x2)
-
+/-- the values given to one variable under `c0` and under `c`: the first, transformed with `cc`, is
+the second -/
 theorem Link.hereOf_rel (hl : Link V c0 cc c) {args : List LArg}
     (hargs : ∀ a ∈ args, ∀ v ∈ a.value.variables, v ∈ V) (k i : Nat) {d : VarDef}
-    (hd : ∀ u, d.default ≠ some (.var u)) :
-    ∃ x1 x2, hereOf c0 args k i d = some x1 ∧ hereOf c args k i d = some x2 ∧ HeadRel cc x1 x2 := by
+    (hd : ∀ dv, d.default = some dv → dv.variables = []) :
+    ∃ x1 x2, hereOf c0 args k i d = some x1 ∧ hereOf c args k i d = some x2 ∧
+      x1.subst (ctxVal cc) = x2 := by
   cases hf : args.find? (·.name == d.name) with
   | some a =>
     have hmem : a ∈ args := List.mem_of_find?_eq_some hf
-    cases hfv : firstVariable a.value with
-    | none =>
-      refine ⟨(a.value, a.site), (a.value, a.site), ?_, ?_, Or.inl ⟨rfl, firstVariable_none_nonvar hfv⟩⟩
-      · simp only [hereOf, hf, hfv]
-      · simp only [hereOf, hf, hfv]
-    | some v =>
-      have hv : v ∈ V := hargs a hmem v (firstVariable_mem hfv)
-      have hb := hl.bound v hv
-      cases hx : ctxGet c v with
-      | none => rw [hx] at hb; cases hb
-      | some x2 =>
-        refine ⟨(.var v, []), x2, ?_, ?_, Or.inr ⟨v, rfl, ?_⟩⟩
-        · simp only [hereOf, hf, hfv, hl.init v hv]
-        · simp only [hereOf, hf, hfv, hx]
-        · rw [hl.same v hv, hx]
+    have hV := hargs a hmem
+    have h0 : a.value.variables.all (fun v => (ctxGet c0 v).isSome) = true := by
+      rw [List.all_eq_true]
+      intro v hv
+      rw [hl.init v (hV v hv)]
+      rfl
+    have h1 : a.value.variables.all (fun v => (ctxGet c v).isSome) = true := by
+      rw [List.all_eq_true]
+      intro v hv
+      exact hl.bound v (hV v hv)
+    refine ⟨a.value.subst (ctxVal c0), a.value.subst (ctxVal c), ?_, ?_, hl.subst_comp hV⟩
+    · simp only [hereOf, hf, h0, if_true]
+    · simp only [hereOf, hf, h1, if_true]
   | none =>
     cases hdv : d.default with
     | none =>
-      refine ⟨(.null, []), (.null, []), ?_, ?_, Or.inl ⟨rfl, fun u hu => by cases hu⟩⟩
+      refine ⟨.null, .null, ?_, ?_, rfl⟩
       · simp only [hereOf, hf, hdv]
       · simp only [hereOf, hf, hdv]
     | some dv =>
-      refine ⟨(dv, if isComposite dv then [1, k, i] else []), (dv, if isComposite dv then [1, k, i] else []),
-        ?_, ?_, Or.inl ⟨rfl, fun u hu => hd u ?_⟩⟩
+      refine ⟨ofValue [1, k, i] dv, ofValue [1, k, i] dv, ?_, ?_, ?_⟩
       · simp only [hereOf, hf, hdv]
       · simp only [hereOf, hf, hdv]
-      · rw [hdv]
-        exact congrArg some hu
-
-theorem substArg_cons_ne {n : String} {x : Value × List Nat} {t : VarCtx} {a : LArg}
-    (h : ∀ w, a.value = .var w → (n == w) = false) : substArg ((n, x) :: t) a = substArg t a := by
-  by_cases hv : ∃ w, a.value = .var w
-  · obtain ⟨w, hw⟩ := hv
-    rw [substArg_var hw, substArg_var hw, ctxGet_cons, h w hw]
-    rfl
-  · have hn : ∀ w, a.value ≠ .var w := fun w hw => hv ⟨w, hw⟩
-    rw [substArg_nonvar hn, substArg_nonvar hn]
+      · exact LV.subst_closed (by rw [ofValue_variables, hd dv hdv]) _
 
 /-- both child contexts exist, and substituting with the one made under `c0` and then with `cc` is
 substituting with the one made under `c` -/
-theorem Link.childCtx_comp (hl : Link V c0 cc c) {args : List LArg}
+theorem Link.childCtx_rel (hl : Link V c0 cc c) {args : List LArg}
     (hargs : ∀ a ∈ args, ∀ v ∈ a.value.variables, v ∈ V) (k : Nat) :
-    ∀ (ds : List VarDef) (i : Nat), (∀ d ∈ ds, ∀ u, d.default ≠ some (.var u)) →
+    ∀ (ds : List VarDef) (i : Nat), (∀ d ∈ ds, ∀ dv, d.default = some dv → dv.variables = []) →
       ∃ cc1 cc2, childCtx c0 args k i ds = some cc1 ∧ childCtx c args k i ds = some cc2 ∧
-        ∀ a, substArg cc (substArg cc1 a) = substArg cc2 a
-  | [], i => fun _ => by
-    refine ⟨[], [], rfl, rfl, fun a => ?_⟩
-    by_cases hv : ∃ w, a.value = .var w
-    · obtain ⟨w, hw⟩ := hv
-      rw [substArg_var hw, ctxGet_nil]
-      exact substArg_nonvar (fun w hw => by cases hw)
-    · have hn : ∀ w, a.value ≠ .var w := fun w hw => hv ⟨w, hw⟩
-      rw [substArg_nonvar hn, substArg_nonvar hn]
+        ∀ w, (ctxVal cc1 w).subst (ctxVal cc) = ctxVal cc2 w
+  | [], i => fun _ => ⟨[], [], rfl, rfl, fun w => by simp only [ctxVal_nil, LV.subst]⟩
   | d :: rest, i => fun hds => by
-    obtain ⟨t1, t2, ht1, ht2, ht⟩ := Link.childCtx_comp hl hargs k rest (i + 1)
+    obtain ⟨t1, t2, ht1, ht2, ht⟩ := Link.childCtx_rel hl hargs k rest (i + 1)
       (fun d' hd' => hds d' (List.mem_cons_of_mem _ hd'))
     obtain ⟨x1, x2, hx1, hx2, hrel⟩ := hl.hereOf_rel hargs k i (hds d (by simp))
-    refine ⟨(d.name, x1) :: t1, (d.name, x2) :: t2, ?_, ?_, fun a => ?_⟩
+    refine ⟨(d.name, x1) :: t1, (d.name, x2) :: t2, ?_, ?_, fun w => ?_⟩
     · rw [childCtx_cons, hx1, ht1]
     · rw [childCtx_cons, hx2, ht2]
-    · by_cases hv : ∃ w, a.value = .var w ∧ (d.name == w) = true
-      · obtain ⟨w, hw, hdw⟩ := hv
-        rw [substArg_var (c := (d.name, x1) :: t1) hw, substArg_var (c := (d.name, x2) :: t2) hw,
-          ctxGet_cons, ctxGet_cons, hdw]
-        simp only [if_true]
-        rcases hrel with ⟨rfl, hnv⟩ | ⟨v, rfl, hv⟩
-        · exact substArg_nonvar (a := ⟨a.name, x1.1, x1.2⟩) hnv
-        · rw [substArg_var (a := ⟨a.name, .var v, []⟩) (w := v) rfl, hv]
-      · have hne : ∀ w, a.value = .var w → (d.name == w) = false := by
-          intro w hw
-          cases hdw : d.name == w
-          · rfl
-          · exact absurd ⟨w, hw, hdw⟩ hv
-        rw [substArg_cons_ne hne, substArg_cons_ne hne]
-        exact ht a
+    · rw [ctxVal_cons, ctxVal_cons]
+      cases d.name == w
+      · exact ht w
+      · exact hrel
 
+theorem Link.childCtx_comp (hl : Link V c0 cc c) {args : List LArg}
+    (hargs : ∀ a ∈ args, ∀ v ∈ a.value.variables, v ∈ V) (k : Nat)
+    (ds : List VarDef) (i : Nat) (hds : ∀ d ∈ ds, ∀ dv, d.default = some dv → dv.variables = []) :
+      ∃ cc1 cc2, childCtx c0 args k i ds = some cc1 ∧ childCtx c args k i ds = some cc2 ∧
+        ∀ a, substArg cc (substArg cc1 a) = substArg cc2 a := by
+  obtain ⟨cc1, cc2, h1, h2, h⟩ := hl.childCtx_rel hargs k ds i hds
+  refine ⟨cc1, cc2, h1, h2, fun a => ?_⟩
+  simp only [substArg, LV.subst_comp]
+  congr 2
+  exact funext h
 
 /-! #### entries -/
 
@@ -595,13 +662,14 @@ theorem hereOf_call (c : VarCtx) {vars : List VarDef} (k i : Nat) {d : VarDef} (
     hereOf c (callArgs vars) k i d = ctxGet c d.name := by
   cases hf : (callArgs vars).find? (·.name == d.name) with
   | none =>
-    have := List.find?_eq_none.1 hf ⟨d.name, .var d.name, []⟩ (List.mem_map.2 ⟨d, hd, rfl⟩)
+    have := List.find?_eq_none.1 hf ⟨d.name, .var d.name⟩ (List.mem_map.2 ⟨d, hd, rfl⟩)
     simp at this
   | some a =>
     have hp := List.find?_some hf
     obtain ⟨d', _, rfl⟩ := List.mem_map.1 (List.mem_of_find?_eq_some hf)
     have hn : d'.name = d.name := by simpa using hp
-    simp only [hereOf, hf, firstVariable, Value.variables, List.head?_cons, hn]
+    simp only [hereOf, hf, LV.variables, LV.subst, hn, List.all_cons, List.all_nil, Bool.and_true, ctxVal]
+    cases ctxGet c d.name <;> rfl
 
 theorem childCtx_call (c : VarCtx) (vars : List VarDef) (k : Nat) :
     ∀ (ds : List VarDef) (i : Nat), (∀ d ∈ ds, d ∈ vars) → (∀ d ∈ ds, (ctxGet c d.name).isSome) →
